@@ -103,10 +103,12 @@ Section LedgerInv.
 
   Lemma step_SP st op : SP st -> SP (step o st op).
   Proof.
-    intros H. destruct op as [n|ns| |ns]; cbn [step]; [| | |exact (fold_offer_SP ns st H)].
+    intros H. destruct op as [n|ns| |ns]; cbn [step]; cbv zeta; [| | |exact (fold_offer_SP ns st H)].
     - assert (H1 : SP (run_quiet o (offer o st n))) by (apply pump_SP, offer_SP, H).
       destruct (is_wfr o); [exact (pump_SP _ _ (flush_cur_SP _ H1))|exact H1].
-    - apply pump_SP. exact (fold_offer_SP ns st H).
+    - match goal with |- context [run_quiet o (gauge ?X)] => assert (H2 : SP (run_quiet o (gauge X))) by (apply pump_SP; exact (fold_offer_SP ns st H)) end.
+      assert (HG : forall x, SP x -> SP (gauge x)) by (intros x Hx; exact Hx).
+      destruct (is_wfr o); apply HG; [exact (pump_SP _ _ (flush_cur_SP _ H2))|exact H2].
     - exact (pump_SP _ _ (flush_cur_SP _ H)).
   Qed.
 
